@@ -11,6 +11,9 @@ import RkVerif.Sem.CNumMathlib
 import RkVerif.Gen.C06
 import Mathlib.Tactic.LinearCombination
 import Mathlib.Tactic.SplitIfs
+import Mathlib.Tactic.FieldSimp
+import Mathlib.Tactic.Linarith
+import Mathlib.Analysis.Real.Sqrt
 
 open RkVerif RkVerif.Gen.C06
 
@@ -373,7 +376,210 @@ theorem q_slerp_neg_invariant (f : α) (a b : Quat α) (hd : @q_dot α 𝔽 a b 
     have h2 : ¬ (ar * br + ai * bi + aj * bj + ak * bk < 0) := by linarith
     simp only [gen_simp, ofFieldT_ofScientific, h0, hd', h1, h2, decide_true, decide_false, ↓reduceIte, Bool.false_eq_true, neg_neg]
 
+
+/-! ## slerp end points (both branches); frame(N) orthonormal for every unit N -/
+
+
+/-- slerp(0, a, b) is the (short-way) first operand: ±a, normalised in the near-parallel fallback branch. -/
+theorem q_slerp_zero (a b : Quat α) (hs : E.sin 0 = 0) (hc : E.cos 0 = 1) :
+    @q_slerp α 𝔽 0 a b =
+      (let a' := if @q_dot α 𝔽 a b < 0 then @q_neg α 𝔽 a else a
+       if (9995 / 10000 : α) < |@q_dot α 𝔽 a b| then @q_normalize α 𝔽 a' else a') := by
+  have h0 : (OfScientific.ofScientific 0 true 1 : α) = 0 := by norm_num
+  have h1 : (OfScientific.ofScientific 10 true 1 : α) = 1 := by norm_num
+  have h9 : (OfScientific.ofScientific 9995 true 4 : α) = 9995 / 10000 := by norm_num
+  obtain ⟨ai, aj, ak, ar⟩ := a
+  obtain ⟨bi, bj, bk, br⟩ := b
+  simp only [gen_simp, ofFieldT_ofScientific, ofFieldT_sin, ofFieldT_cos, ofFieldT_acos, h0, h1, h9]
+  by_cases hd : ar * br + ai * bi + aj * bj + ak * bk < 0
+  · have habs : |ar * br + ai * bi + aj * bj + ak * bk| = -(ar * br + ai * bi + aj * bj + ak * bk) := abs_of_neg hd
+    by_cases hb : (9995 / 10000 : α) < -(ar * br + ai * bi + aj * bj + ak * bk)
+    · simp [hd, hb, habs, hs, hc]
+    · simp [hd, hb, habs, hs, hc]
+  · have habs : |ar * br + ai * bi + aj * bj + ak * bk| = (ar * br + ai * bi + aj * bj + ak * bk) := abs_of_nonneg (not_lt.mp hd)
+    by_cases hb : (9995 / 10000 : α) < (ar * br + ai * bi + aj * bj + ak * bk)
+    · simp [hd, hb, habs, hs, hc]
+    · simp [hd, hb, habs, hs, hc]
+
+/-- slerp(1, a, b) is the second operand (normalised in the near-parallel fallback branch). -/
+theorem q_slerp_one (a b : Quat α)
+    (hsin : E.sin (E.acos |@q_dot α 𝔽 a b|) ≠ 0) (hcos : E.cos (E.acos |@q_dot α 𝔽 a b|) = |@q_dot α 𝔽 a b|) :
+    @q_slerp α 𝔽 1 a b =
+      (if (9995 / 10000 : α) < |@q_dot α 𝔽 a b| then @q_normalize α 𝔽 b else b) := by
+  have h0 : (OfScientific.ofScientific 0 true 1 : α) = 0 := by norm_num
+  have h1 : (OfScientific.ofScientific 10 true 1 : α) = 1 := by norm_num
+  have h9 : (OfScientific.ofScientific 9995 true 4 : α) = 9995 / 10000 := by norm_num
+  obtain ⟨ai, aj, ak, ar⟩ := a
+  obtain ⟨bi, bj, bk, br⟩ := b
+  simp only [gen_simp, ofFieldT_ofScientific, ofFieldT_sin, ofFieldT_cos, ofFieldT_acos, h0, h1, h9] at hsin hcos ⊢
+  generalize ar * br + ai * bi + aj * bj + ak * bk = d at *
+  by_cases hd : d < 0
+  · rw [abs_of_neg hd] at hsin hcos ⊢
+    by_cases hb : (9995 / 10000 : α) < -d
+    · simp only [hd, hb, decide_true, ↓reduceIte, gt_iff_lt, sub_self, zero_mul, one_mul, zero_add]
+    · simp only [hd, hb, decide_true, decide_false, ↓reduceIte, gt_iff_lt, Bool.false_eq_true, mul_one, hcos, div_self hsin,
+        sub_self, zero_mul, one_mul, zero_add, mul_zero]
+  · rw [abs_of_nonneg (not_lt.mp hd)] at hsin hcos ⊢
+    by_cases hb : (9995 / 10000 : α) < d
+    · simp only [hd, hb, decide_true, decide_false, ↓reduceIte, gt_iff_lt, Bool.false_eq_true, sub_self, zero_mul, one_mul, zero_add]
+    · simp only [hd, hb, decide_true, decide_false, ↓reduceIte, gt_iff_lt, Bool.false_eq_true, mul_one, hcos, div_self hsin,
+        sub_self, zero_mul, one_mul, zero_add, mul_zero]
+
+
+/-- the square-root law the normalisation theorems use -/
+def SqrtLaw : Prop := ∀ x : α, 0 < x → 0 < E.sqrt x ∧ E.sqrt x * E.sqrt x = x
+
+theorem sqrt_one_of_law (h : SqrtLaw E) : E.sqrt 1 = 1 := by
+  obtain ⟨hp, hm⟩ := h 1 one_pos
+  have : (E.sqrt 1 - 1) * (E.sqrt 1 + 1) = 0 := by ring_nf; rw [sq, hm]; ring
+  rcases mul_eq_zero.mp this with h1 | h1
+  · linarith
+  · linarith
+
+/-- normalize(v) is a unit vector whenever v ≠ 0 (v·v > 0) -/
+theorem normalize_unit (h : SqrtLaw E) (v : Vec3 α) (hv : 0 < @dot_Vec3_Vec3 α 𝔽 v v) :
+    @dot_Vec3_Vec3 α 𝔽 (@normalize_Vec3 α 𝔽 v) (@normalize_Vec3 α 𝔽 v) = 1 := by
+  have h1 : (OfScientific.ofScientific 10 true 1 : α) = 1 := by norm_num
+  obtain ⟨x, y, z⟩ := v
+  simp only [gen_simp, ofFieldT_ofScientific, ofFieldT_sqrt, h1] at hv ⊢
+  obtain ⟨hp, hm⟩ := h _ hv
+  have hne : E.sqrt (x * x + y * y + z * z) ≠ 0 := ne_of_gt hp
+  have hr : (1 / E.sqrt (x * x + y * y + z * z)) * (1 / E.sqrt (x * x + y * y + z * z)) *
+      (E.sqrt (x * x + y * y + z * z) * E.sqrt (x * x + y * y + z * z)) = 1 := by
+    generalize E.sqrt (x * x + y * y + z * z) = t at hne
+    field_simp
+  rw [hm] at hr
+  linear_combination hr
+
+/-- normalize leaves a unit vector unchanged -/
+theorem normalize_of_unit (h : SqrtLaw E) (v : Vec3 α) (hv : @dot_Vec3_Vec3 α 𝔽 v v = 1) :
+    @normalize_Vec3 α 𝔽 v = v := by
+  have h1 : (OfScientific.ofScientific 10 true 1 : α) = 1 := by norm_num
+  obtain ⟨x, y, z⟩ := v
+  simp only [gen_simp, ofFieldT_ofScientific, ofFieldT_sqrt, h1] at hv ⊢
+  rw [hv, sqrt_one_of_law E h]
+  simp
+
+/-- the common tail of frame(N) and frame(N, up): for unit N and any helper v ≠ 0 orthogonal to N, the triple
+    (normalize v, normalize (N × normalize v), N) is orthonormal with determinant +1 -/
+theorem frame_from_helper (h : SqrtLaw E) (N v : Vec3 α) (hN : @dot_Vec3_Vec3 α 𝔽 N N = 1)
+    (hvp : 0 < @dot_Vec3_Vec3 α 𝔽 v v) (hNv : @dot_Vec3_Vec3 α 𝔽 N v = 0) :
+    let F : Lin3 α := ⟨@normalize_Vec3 α 𝔽 v, @normalize_Vec3 α 𝔽 (@cross_Vec3_Vec3 α 𝔽 N (@normalize_Vec3 α 𝔽 v)), N⟩
+    @dot_Vec3_Vec3 α 𝔽 F.vx F.vx = 1 ∧ @dot_Vec3_Vec3 α 𝔽 F.vy F.vy = 1 ∧ @dot_Vec3_Vec3 α 𝔽 F.vy F.vx = 0 ∧
+    @dot_Vec3_Vec3 α 𝔽 F.vx N = 0 ∧ @dot_Vec3_Vec3 α 𝔽 F.vy N = 0 ∧ F.vz = N ∧ @l3_det α 𝔽 F = 1 := by
+  intro F
+  have h10 : (OfScientific.ofScientific 10 true 1 : α) = 1 := by norm_num
+  have hdxu := normalize_unit E h v hvp
+  have hF : F = ⟨@normalize_Vec3 α 𝔽 v, @normalize_Vec3 α 𝔽 (@cross_Vec3_Vec3 α 𝔽 N (@normalize_Vec3 α 𝔽 v)), N⟩ := rfl
+  set dx := @normalize_Vec3 α 𝔽 v with hdx
+  have hNdx : @dot_Vec3_Vec3 α 𝔽 N dx = 0 := by
+    obtain ⟨x, y, z⟩ := N
+    obtain ⟨a, b, c⟩ := v
+    simp only [gen_simp] at hNv
+    simp only [hdx, gen_simp, ofFieldT_ofScientific, ofFieldT_sqrt, h10]
+    linear_combination (1 / E.sqrt (a * a + b * b + c * c)) * hNv
+  obtain ⟨o1, o2, o3, o4⟩ := frame_orientation E dx N hdxu hN hNdx
+  have hdy : @normalize_Vec3 α 𝔽 (@cross_Vec3_Vec3 α 𝔽 N dx) = @cross_Vec3_Vec3 α 𝔽 N dx :=
+    normalize_of_unit E h _ o1
+  rw [hF, hdy]
+  refine ⟨hdxu, o1, o2, ?_, o3, rfl, o4⟩
+  obtain ⟨x, y, z⟩ := N
+  obtain ⟨a, b, c⟩ := dx
+  simp only [gen_simp] at hNdx ⊢
+  linear_combination hNdx
+
+/-- **frame(N) is a right-handed orthonormal frame with third axis N, for every unit N** — in particular
+    the helper axis chosen (the longer of e_x×N, e_y×N) is never the zero vector, so nothing is normalised
+    from zero (N = ±e_x, ±e_y included). -/
+theorem l3_frame_orthonormal (h : SqrtLaw E) (N : Vec3 α) (hN : @dot_Vec3_Vec3 α 𝔽 N N = 1) :
+    let F := @l3_frame α 𝔽 N
+    @dot_Vec3_Vec3 α 𝔽 F.vx F.vx = 1 ∧ @dot_Vec3_Vec3 α 𝔽 F.vy F.vy = 1 ∧ @dot_Vec3_Vec3 α 𝔽 F.vy F.vx = 0 ∧
+    @dot_Vec3_Vec3 α 𝔽 F.vx N = 0 ∧ @dot_Vec3_Vec3 α 𝔽 F.vy N = 0 ∧ F.vz = N ∧ @l3_det α 𝔽 F = 1 := by
+  intro F
+  have h10 : (OfScientific.ofScientific 10 true 1 : α) = 1 := by norm_num
+  set ex : Vec3 α := @Vec3_mk_S_S_S α 𝔽 (@OneTy_to_S α 𝔽 ()) (@ZeroTy_to_S α 𝔽 ()) (@ZeroTy_to_S α 𝔽 ()) with hex
+  set ey : Vec3 α := @Vec3_mk_S_S_S α 𝔽 (@ZeroTy_to_S α 𝔽 ()) (@OneTy_to_S α 𝔽 ()) (@ZeroTy_to_S α 𝔽 ()) with hey
+  set dx0 := @cross_Vec3_Vec3 α 𝔽 ex N with hdx0
+  set dx1 := @cross_Vec3_Vec3 α 𝔽 ey N with hdx1
+  set v := (if (decide (@dot_Vec3_Vec3 α 𝔽 dx0 dx0 > @dot_Vec3_Vec3 α 𝔽 dx1 dx1)) then dx0 else dx1) with hv
+  have hF : F = ⟨@normalize_Vec3 α 𝔽 v, @normalize_Vec3 α 𝔽 (@cross_Vec3_Vec3 α 𝔽 N (@normalize_Vec3 α 𝔽 v)), N⟩ := rfl
+  have hvpos : 0 < @dot_Vec3_Vec3 α 𝔽 v v ∧ @dot_Vec3_Vec3 α 𝔽 N v = 0 := by
+    obtain ⟨x, y, z⟩ := N
+    simp only [gen_simp, ofFieldT_ofScientific, ofFieldT_ofNat, h10, Nat.cast_zero, Nat.cast_one] at hN
+    simp only [hv, hdx0, hdx1, hex, hey, gen_simp, ofFieldT_ofScientific, ofFieldT_ofNat, h10, Nat.cast_zero, Nat.cast_one]
+    split_ifs with hc
+    · simp only [decide_eq_true_eq, gt_iff_lt] at hc
+      refine ⟨?_, by ring⟩
+      nlinarith [sq_nonneg x, sq_nonneg y, sq_nonneg z]
+    · simp only [decide_eq_true_eq, gt_iff_lt, not_lt] at hc
+      refine ⟨?_, by ring⟩
+      nlinarith [sq_nonneg x, sq_nonneg y, sq_nonneg z]
+  rw [hF]
+  exact frame_from_helper E h N v hN hvpos.1 hvpos.2
+
+/-- **frame(N, up) is a right-handed orthonormal frame with third axis N, for all unit N and up** (parallel,
+    anti-parallel and nearly parallel `up` included: those take the frame(N) fallback; otherwise up×N ≠ 0). -/
+theorem l3_frame_up_orthonormal (h : SqrtLaw E) (N up : Vec3 α) (hN : @dot_Vec3_Vec3 α 𝔽 N N = 1)
+    (hup : @dot_Vec3_Vec3 α 𝔽 up up = 1) :
+    let F := @l3_frame_up α 𝔽 N up
+    @dot_Vec3_Vec3 α 𝔽 F.vx F.vx = 1 ∧ @dot_Vec3_Vec3 α 𝔽 F.vy F.vy = 1 ∧ @dot_Vec3_Vec3 α 𝔽 F.vy F.vx = 0 ∧
+    @dot_Vec3_Vec3 α 𝔽 F.vx N = 0 ∧ @dot_Vec3_Vec3 α 𝔽 F.vy N = 0 ∧ F.vz = N ∧ @l3_det α 𝔽 F = 1 := by
+  intro F
+  by_cases hc : @CNum.abs α 𝔽 (@dot_Vec3_Vec3 α 𝔽 up N) > (OfScientific.ofScientific 990000009 true 9 : α)
+  · have hF : F = @l3_frame α 𝔽 N := by
+      simp only [F, l3_frame_up, frame_Vec3_Vec3, l3_frame, ofFieldT_ofScientific, hc, decide_true, ↓reduceIte]
+    rw [hF]
+    exact l3_frame_orthonormal E h N hN
+  · have hF : F = ⟨@normalize_Vec3 α 𝔽 (@cross_Vec3_Vec3 α 𝔽 up N),
+        @normalize_Vec3 α 𝔽 (@cross_Vec3_Vec3 α 𝔽 N (@normalize_Vec3 α 𝔽 (@cross_Vec3_Vec3 α 𝔽 up N))), N⟩ := by
+      simp only [F, l3_frame_up, frame_Vec3_Vec3, Lin3_mk_Vec3_Vec3_Vec3, ofFieldT_ofScientific, hc, decide_false, ↓reduceIte,
+        Bool.false_eq_true]
+    rw [hF]
+    have hlt : |@dot_Vec3_Vec3 α 𝔽 up N| < 1 := by
+      have h99 : (OfScientific.ofScientific 990000009 true 9 : α) < 1 := by norm_num
+      exact lt_of_le_of_lt (not_lt.mp hc) h99
+    have hsq : @dot_Vec3_Vec3 α 𝔽 up N * @dot_Vec3_Vec3 α 𝔽 up N < 1 := by
+      have := abs_lt.mp hlt
+      nlinarith [this.1, this.2]
+    refine frame_from_helper E h N _ hN ?_ ?_
+    · rw [cross_dot_lagrange, hup, hN]; linarith
+    · obtain ⟨x, y, z⟩ := N
+      obtain ⟨a, b, c⟩ := up
+      simp only [gen_simp]; ring
+
+/-- **lookat is orthonormal** whenever point ≠ eye and up is not parallel to the viewing direction:
+    Z, U = normalize(Z×up), V = U×Z are unit and mutually orthogonal, det = −1, origin = eye. -/
+theorem a3_lookat_orthonormal (h : SqrtLaw E) (eye point up : Vec3 α)
+    (hpe : 0 < @dot_Vec3_Vec3 α 𝔽 (@sub_Vec3_Vec3 α 𝔽 point eye) (@sub_Vec3_Vec3 α 𝔽 point eye))
+    (hcr : 0 < @dot_Vec3_Vec3 α 𝔽
+      (@cross_Vec3_Vec3 α 𝔽 (@normalize_Vec3 α 𝔽 (@sub_Vec3_Vec3 α 𝔽 point eye)) up)
+      (@cross_Vec3_Vec3 α 𝔽 (@normalize_Vec3 α 𝔽 (@sub_Vec3_Vec3 α 𝔽 point eye)) up)) :
+    let A := @a3_lookat α 𝔽 eye point up
+    @dot_Vec3_Vec3 α 𝔽 A.l.vx A.l.vx = 1 ∧ @dot_Vec3_Vec3 α 𝔽 A.l.vy A.l.vy = 1 ∧ @dot_Vec3_Vec3 α 𝔽 A.l.vz A.l.vz = 1 ∧
+    @dot_Vec3_Vec3 α 𝔽 A.l.vy A.l.vx = 0 ∧ @dot_Vec3_Vec3 α 𝔽 A.l.vy A.l.vz = 0 ∧ @dot_Vec3_Vec3 α 𝔽 A.l.vx A.l.vz = 0 ∧
+    @l3_det α 𝔽 A.l = -1 ∧ A.p = eye := by
+  intro A
+  have h10 : (OfScientific.ofScientific 10 true 1 : α) = 1 := by norm_num
+  have hA : A = _ := a3_lookat_def E eye point up
+  set Z := @normalize_Vec3 α 𝔽 (@sub_Vec3_Vec3 α 𝔽 point eye) with hZ
+  set U := @normalize_Vec3 α 𝔽 (@cross_Vec3_Vec3 α 𝔽 Z up) with hU
+  have hZu := normalize_unit E h _ hpe
+  have hUu := normalize_unit E h _ hcr
+  rw [← hZ] at hZu
+  rw [← hU] at hUu
+  have hUZ : @dot_Vec3_Vec3 α 𝔽 U Z = 0 := by
+    obtain ⟨x, y, z⟩ := Z
+    obtain ⟨a, b, c⟩ := up
+    simp only [hU, gen_simp, ofFieldT_ofScientific, ofFieldT_sqrt, h10]
+    ring
+  obtain ⟨o1, o2, o3, o4⟩ := lookat_frame_orientation E U Z hUu hZu hUZ
+  rw [hA]
+  exact ⟨hUu, o1, hZu, o2, o3, hUZ, o4, rfl⟩
+
 /-! ## non-vacuity -/
 example : (2 : ℚ) * 2 + 0 * 0 + 0 * 0 ≠ 0 := by norm_num
+/-- the square-root law is satisfiable (real numbers) -/
+example : SqrtLaw (⟨0, 0, 0, Real.sqrt, id, id, id⟩ : Transc ℝ) :=
+  fun x h => ⟨Real.sqrt_pos.mpr h, Real.mul_self_sqrt h.le⟩
 
 end RkVerif.C06
